@@ -182,3 +182,254 @@ def progress(rep, rule, prog):
             rep.bad(rule, key, b.loc(ln), 'skipper %s can return Ok without consuming any input (an arm neither reads nor advances): a wire-supplied count then loops without progress' % name)
         else:
             rep.ok(rule, key, '%d Ok exits, all behind a consuming call (%d consuming call sites)' % (len(oks), len(consuming)), b.loc())
+
+
+# ----------------------------------------------------------------------------- arm structure
+def type_switch(b, prog):
+    """the `match field_type`/`match ttype` switch of a skipper: (bb, {variant: target_bb}, otherwise_bb)"""
+    best = None
+    for bi, bb in enumerate(b.bbs):
+        t = bb['t']
+        if bb['cleanup'] or t['k'] != 'switch':
+            continue
+        c = b.expr_op(t['o'])
+        if c[0] == 'discr' and c[2].endswith('thrift::TType') and len(t['vals']) >= 8:
+            arms = {}
+            for v, tb in t['vals']:
+                name = prog.enum_variant('thrift::TType', int(v))
+                arms[name or v] = tb
+            if best is None or len(arms) > len(best[1]):
+                best = (bi, arms, t['else'])
+    return best
+
+
+def arm_regions(b, sw):
+    """variant -> set of blocks reachable from its target only (not from other arms' targets or the fallback)"""
+    bi, arms, other = sw
+    targets = {}
+    for v, tb in arms.items():
+        targets.setdefault(tb, []).append(v)
+    def reach_cut(a):
+        # stop at the switch itself: loop-based skippers come back to it for the next element
+        succ = b.cfg[0]
+        seen = {a}
+        st = [a]
+        while st:
+            x = st.pop()
+            for s in succ[x]:
+                if s not in seen and s != bi:
+                    seen.add(s)
+                    st.append(s)
+        return seen
+    reach = {tb: reach_cut(tb) for tb in list(targets) + [other]}
+    out = {}
+    for tb, vs in targets.items():
+        excl = set(reach[tb])
+        for tb2, r in reach.items():
+            if tb2 != tb:
+                excl -= r
+        # loop-based skippers rejoin at the loop header: also drop anything that can reach the switch again... keep simple
+        for v in vs:
+            out[v] = excl
+    return out
+
+
+EXPECT_READ = {
+    'Bool': {'read_bool'}, 'I8': {'read_i8', 'read_byte'}, 'I16': {'read_i16'}, 'I32': {'read_i32'}, 'I64': {'read_i64'},
+    'Double': {'read_double'}, 'Binary': {'read_bytes', 'read_string', 'read_bytes_vec', 'read_faststr'}, 'Uuid': {'read_uuid'},
+    'Struct': {'read_struct_begin'}, 'List': {'read_list_begin'}, 'Set': {'read_set_begin'}, 'Map': {'read_map_begin'},
+}
+VALUE_TYPES = ['Bool', 'I8', 'I16', 'I32', 'I64', 'Double', 'Binary', 'Uuid', 'Struct', 'List', 'Set', 'Map']
+
+
+def arms_agree(rep, rule, prog):
+    """all four skippers handle the same wire types; the read-based ones read each type with its own reader method"""
+    sk = find_skippers(prog)
+    handled = {}
+    for name in ('sync_default', 'sync_compact', 'async_default', 'unsafe_iterative'):
+        b = sk.get(name)
+        if b is None:
+            rep.anchor_missing(rule, 'skipper ' + name)
+            continue
+        rep.functions.add(b.id)
+        sw = type_switch(b, prog)
+        if sw is None:
+            rep.anchor_missing(rule, 'match on TType in skipper ' + name)
+            continue
+        handled[name] = set(sw[1].keys())
+        regions = arm_regions(b, sw)
+        if name in ('sync_compact', 'async_default'):
+            calls_by_bb = {}
+            for cs in b.calls():
+                calls_by_bb.setdefault(cs.bb, []).append(cs)
+            by_target = {}
+            for v, tb in sw[1].items():
+                by_target.setdefault(tb, []).append(v)
+            for v in sorted(sw[1]):
+                key = '%s|%s|arm %s' % (rule, name, v)
+                want = EXPECT_READ.get(v)
+                if want is None:
+                    rep.bad(rule, key, b.loc(), 'skipper %s has an arm for %s, which is not a skippable wire type' % (name, v))
+                    continue
+                names = set()
+                for bb in regions[v]:
+                    for cs in calls_by_bb.get(bb, []):
+                        if cs.name.startswith('read_') or cs.name.startswith('skip'):
+                            names.add(cs.name)
+                if len(by_target[sw[1][v]]) > 1:
+                    rep.bad(rule, key, b.loc(b.bbs[sw[1][v]]['t'].get('ln')), 'skipper %s: wire types %s share one arm; each type has its own encoding in at least one protocol (compact: i64 is a varint, double is 8 bytes)' % (name, sorted(by_target[sw[1][v]])))
+                elif names & want:
+                    rep.ok(rule, key, 'reads with %s' % sorted(names & want), b.loc(b.bbs[sw[1][v]]['t'].get('ln')))
+                else:
+                    rep.bad(rule, key, b.loc(b.bbs[sw[1][v]]['t'].get('ln')), 'skipper %s: arm %s calls %s, expected one of %s' % (name, v, sorted(names), sorted(want)))
+    want = set(VALUE_TYPES)
+    for name, hs in handled.items():
+        key = '%s|%s|handled types' % (rule, name)
+        if hs == want:
+            rep.ok(rule, key, 'handles exactly the 12 value types', sk[name].loc())
+        else:
+            rep.bad(rule, key, sk[name].loc(), 'skipper %s handles %s; missing %s, unexpected %s (sibling skippers and the spec have exactly the 12 value types)' % (name, sorted(map(str, hs)), sorted(want - hs), sorted(map(str, hs - want))))
+
+
+def struct_loop(rep, rule, prog):
+    """in every recursive skipper, each trip of the struct field loop skips the field's value"""
+    sk = find_skippers(prog)
+    for name in ('sync_default', 'sync_compact', 'async_default'):
+        b = sk.get(name)
+        if b is None:
+            rep.anchor_missing(rule, 'skipper ' + name)
+            continue
+        rfb = [cs for cs in b.calls() if cs.name == 'read_field_begin']
+        key = '%s|%s|struct loop' % (rule, name)
+        if not rfb:
+            rep.anchor_missing(rule, 'read_field_begin in ' + name)
+            continue
+        start = rfb[0].bb
+        rec = {cs.bb for cs in recursive_calls(b)}
+        succ, pred, reach = b.cfg
+        seen = set()
+        st = [s for s in succ[start]]
+        cyc = False
+        while st:
+            x = st.pop()
+            if x in seen or x in rec:
+                continue
+            seen.add(x)
+            if x == start:
+                cyc = True
+                break
+            st.extend(succ[x])
+        if cyc:
+            rep.bad(rule, key, rfb[0].loc(), 'skipper %s: the struct field loop can go round without skipping the field value (a path from read_field_begin back to itself avoids the recursive skip): the value bytes are then parsed as field headers' % name)
+        else:
+            rep.ok(rule, key, 'every loop trip passes the recursive skip', rfb[0].loc())
+
+
+def default_skipper_widths(rep, rule, prog, cg):
+    """the constants of the inherited fixed-width skipper equal the *_len constants of every protocol that inherits it"""
+    import thrift_pairs as tp
+    sk = find_skippers(prog)
+    b = sk.get('sync_default')
+    if b is None:
+        rep.anchor_missing(rule, 'default skipper')
+        return
+    sw = type_switch(b, prog)
+    regions = arm_regions(b, sw)
+    arm_k = {}
+    for v in ('Bool', 'I8', 'I16', 'I32', 'I64', 'Double', 'Uuid'):
+        ks = set()
+        lens = set()
+        guards = set()
+        for cs in b.calls():
+            if cs.bb in regions.get(v, ()) and cs.name == 'advance':
+                a = cs.arg(1)
+                ks.add(a[1] if a[0] == 'const' else show(a))
+                for op, ca, cb, sbb, tb in b.comparisons_at(cs.bb):
+                    if cb is not None and op == 'Ge' and cb[0] == 'const':
+                        guards.add(cb[1])
+        for bi in regions.get(v, ()):
+            for st in b.bbs[bi]['st']:
+                r = st.get('r', {})
+                if r.get('k') == 'bin' and r['op'] in ('Add', 'AddWithOverflow'):
+                    x = b.expr_op(r['b'])
+                    if x[0] == 'const':
+                        lens.add(x[1])
+        key = '%s|default skipper|arm %s' % (rule, v)
+        if len(ks) == 1 and lens == ks and guards == ks:
+            arm_k[v] = list(ks)[0]
+            rep.ok(rule, key, 'guard, advance and count all use %s' % list(ks)[0], b.loc())
+        else:
+            rep.bad(rule, key, b.loc(), 'default skipper arm %s: guard %s, advance %s and reported count %s must be one constant' % (v, sorted(guards), sorted(map(str, ks)), sorted(lens)))
+    # who inherits it?
+    lenname = {'Bool': 'bool_len', 'I8': 'i8_len', 'I16': 'i16_len', 'I32': 'i32_len', 'I64': 'i64_len', 'Double': 'double_len', 'Uuid': 'uuid_len'}
+    for fname in ('binary', 'binary_le', 'compact'):
+        fam = tp.Fam(prog, cg, fname)
+        own = 'skip_till_depth' in fam.R
+        key = '%s|%s|skipper' % (rule, fname)
+        if not fam.R:
+            rep.anchor_missing(rule, fname + ' reader')
+            continue
+        lens = fam.LEN[-1] if fname == 'compact' else fam.LEN[0]
+        consts = {}
+        for v, ln in lenname.items():
+            lb = lens.get(ln)
+            consts[v] = const_return(lb, prog, cg) if lb is not None else None
+        if own:
+            rep.ok(rule, key, '%s reader has its own skip_till_depth' % fname, fam.R['skip_till_depth'].loc())
+            continue
+        bad = {v: (consts[v], arm_k.get(v)) for v in lenname if consts[v] is None or consts[v] != arm_k.get(v)}
+        if bad:
+            rep.bad(rule, key, list(fam.R.values())[0].loc(), '%s reader inherits the fixed-width default skipper, but its encoded sizes are not those constants: %s (len const, skipper const); it needs a skipper of its own' % (fname, bad))
+        else:
+            rep.ok(rule, key, '%s inherits the default skipper and its *_len constants equal the skipper widths %s' % (fname, arm_k))
+
+
+def const_return(b, prog, cg, depth=0):
+    """the constant a *_len method always returns (folding calls to sibling *_len methods), else None"""
+    if b is None or depth > 4:
+        return None
+    vals = set()
+    for bi, bb in enumerate(b.bbs):
+        if bb['cleanup']:
+            continue
+        for st in bb['st']:
+            p = st.get('p')
+            if p and p['l'] == 0 and not p['p']:
+                vals.add(_ceval(b, b.expr_rvalue(st['r']), prog, cg, depth))
+        t = bb['t']
+        if t['k'] == 'call' and t['dest']['l'] == 0 and not t['dest']['p']:
+            vals.add(_ceval(b, b.expr_call(t, bi), prog, cg, depth))
+    if len(vals) == 1:
+        return list(vals)[0]
+    return None
+
+
+def _ceval(b, e, prog, cg, depth):
+    e = mirlib.strip_casts(e)
+    if e[0] == 'const':
+        return e[1]
+    if e[0] == 'field' and e[2] == '0' and e[1][0] == 'bin':
+        e = e[1]
+    if e[0] == 'bin' and e[1] in ('Add', 'AddWithOverflow', 'Mul', 'MulWithOverflow'):
+        x, y = _ceval(b, e[2], prog, cg, depth), _ceval(b, e[3], prog, cg, depth)
+        if x is None or y is None:
+            return None
+        return x + y if e[1].startswith('Add') else x * y
+    if e[0] == 'call':
+        nm = e[1].split('::')[-1]
+        if nm.endswith('_len') or nm == 'len':
+            # sibling *_len of the same impl
+            for cs in b.calls():
+                if cs.bb == e[3]:
+                    tg = cg.targets(cs)
+                    same = [x for x in tg if (x.impl_self or '').split('<')[0] == (b.impl_self or '').split('<')[0]]
+                    if len(same) == 1:
+                        return const_return(same[0], prog, cg, depth + 1)
+            if nm == 'len' and e[2]:
+                # [u8; N]::len()  (d.to_le_bytes().len())
+                inner = mirlib.strip_refs(mirlib.strip_casts(mirlib.strip_refs(e[2][0])))
+                if inner[0] == 'call' and re.search(r'<impl (f64|i64|u64)>::to_[bln]e_bytes$', inner[1]):
+                    return 8
+        if nm == 'size_of':
+            return None
+    return None
